@@ -246,6 +246,15 @@ uint64_t op_smut(const Shared &) {
   m.erase(93);
   m.insert(5);
   m.insert(5);
+  // bulk insertions whose smallest key is below the current last element: FlatSet sorts the appended tail and MERGES
+  // it into the sorted prefix (SmallSet forwards to its backing set when large) -- the writers-on-distinct-objects
+  // case of the property: two threads running this on their own objects must not share anything
+  const int more[] = {90, 3, 70, 5};
+  m.insert(more, more + 4);
+  m.insert({1, 200, 72});
+  m = {8, 2, 6};  // back to a small state (SmallSet: inline again)
+  m.insert(more, more + 4);
+  m.insert({7, 1, 300, 4});
   uint64_t h = mix(16, m.size());
   for (int x : m) h = mix(h, static_cast<uint64_t>(x));
   return h;
